@@ -12,6 +12,8 @@ DELIMS = {
     "safely_unquote_query_item": "&=#",
     "safely_unquote_fragment": "",
 }
+import re
+QUOTED_CHARSET_RE = re.compile(r"(?:[A-Za-z0-9_.~/-]|%[0-9A-Fa-f]{2})*\Z")
 RAW_CTRL = ["\n", "\x7f", "\x00", "\x85"]  # raw control characters (C14 only: URL-level functions strip them first)
 CONTROLS = [chr(c) for c in list(range(0, 32)) + list(range(0x7F, 0xA0))]
 
@@ -56,6 +58,9 @@ def evaluate_string(s, fns=FNS):
         if fn == "safely_quote":
             if not out.isascii():
                 fails.append((PROP + ".ascii", "ASCII only", out))
+            elif not QUOTED_CHARSET_RE.match(out):
+                # "everything else is escaped": only unreserved characters, '/' and %XX escapes may remain
+                fails.append((PROP + ".quoted-charset", "only unreserved characters, '/' and escapes", out))
             ein, eout = refurl.escapes(s), refurl.escapes(out)
             it = iter(eout)
             if not all(any(x == y for y in it) for x in ein):
